@@ -137,6 +137,8 @@ def check_cfg(ctx, fx, cfg):
         short = adt.split("::")[-1]
         needle = "/%s." % short
         for s_ in fx.d.get("statics", []):
+            if s_["def"] == "actor::service::REGISTRY":
+                continue  # the service registry is where strong addresses of services live (C08): its slot type may hold them
             if adt in s_["ty"] or short in s_["ty"]:
                 return True
         for o2 in fx.owns:
